@@ -239,6 +239,17 @@ impl<'a, 'b> PartialEq<Template<'b>> for Template<'a> {
 
                     continue;
                 }
+                // An empty text fragment next to a hole doesn't change the text between holes
+                (PartKind::Text { value: ref a }, PartKind::Hole { .. }) if a.get().is_empty() => {
+                    ai += 1;
+
+                    continue;
+                }
+                (PartKind::Hole { .. }, PartKind::Text { value: ref b }) if b.get().is_empty() => {
+                    bi += 1;
+
+                    continue;
+                }
                 _ => return false,
             }
         }
